@@ -28,7 +28,9 @@ def raw_point(rng, impl, mode=None):
 def boundary(ctx, impl, n):
     rng = ctx.rng
     for i in range(n):
-        mode = 'max' if i % 3 == 0 else None
+        # 'max' = largest producer output; 'nominal_max' = all limbs 2^w - 1, the largest value that survives a weak
+        # reduction unchanged (limbs above 2^w are folded into the next limb by the next carry pass)
+        mode = ['max', 'nominal_max', None, 'near_nominal', 'near_max', None][i % 6]
         Pt, Qt = raw_point(rng, impl, mode), raw_point(rng, impl, mode)
         for op in range(9):
             ctx.add('ed.formula', '#%d' % op, Pt, Qt, cls='boundary:formula')
@@ -93,7 +95,7 @@ def make_boundary_vec(seed, size, which='avx2'):
     rng = ctx.rng
     for i in range(size):
         ctx.block()
-        mode = 'max' if i % 2 == 0 else None
+        mode = ['max', 'nominal_max', 'near_max', 'near_nominal', None][i % 5]
         pre = model.PRE['mul']
         a, _ = g.operand(pre[0], mode)
         b, _ = g.operand(pre[1], mode)
@@ -113,9 +115,33 @@ def make_boundary_vec(seed, size, which='avx2'):
             # a CachedPoint must not be negated twice (documented): subtract the un-negated one, add the negated one
             s2 = ctx.add(pt, 'ext_sub_cached', ctx.ref(d, 0), ctx.ref(c, 0), cls='boundary:vec', info='repr')
             ctx.add(pt, 'ext_add_cached', ctx.ref(d, 0), ctx.ref(n, 0), cls='boundary:vec', info='repr')
+            # largest extended lanes against a negated cached point (the product feeds negate_lazy inside diff_sum)
+            ctx.add(pt, 'ext_add_cached', e, ctx.ref(n, 0), cls='boundary:vec', info='repr')
+            ctx.add(pt, 'ext_sub_cached', e, ctx.ref(c, 0), cls='boundary:vec', info='repr')
             ctx.add(pt, 'ext_double', ctx.ref(s2, 0), cls='boundary:vec', info='repr')
             ctx.add(pt, 'ext_pow2', ctx.ref(s, 0), '#4', cls='boundary:vec', info='repr')
             ctx.add(pt, 'ext_to_edwards', ctx.ref(s2, 0), cls='boundary:vec', info='repr')
+        # crafted lanes at the type invariants: extended lanes all at the reduced maximum against cached points whose
+        # lanes are tiny (their negation is then as large as a negated lane can be), at the maximum, and mixed
+        kind = 0.007 if which == 'avx2' else 'R'
+        tiny = lambda i, w: 3
+        for emode in ('max', 'nominal_max', 'near_nominal', 'near_max', None):
+            e2, _ = g.operand(kind, emode)
+            for cmode in ('tiny', 'small', 'max', 'near_nominal', None):
+                if cmode == 'tiny':
+                    lanes = [vals.loose_limbs(rng, model.bits32, tiny, 'random')[1] for _ in range(4)]
+                    c2 = model.pack(lanes)
+                elif cmode == 'small':
+                    lanes = [vals.loose_limbs(rng, model.bits32, g.limit_fn(kind), 'small')[1] for _ in range(4)]
+                    c2 = model.pack(lanes)
+                else:
+                    c2, _ = g.operand(kind, cmode)
+                n2 = ctx.add(pt, 'cached_neg', vm.tok(c2), cls='boundary:vec', info='repr')
+                ctx.add(pt, 'ext_add_cached', vm.tok(e2), ctx.ref(n2, 0), cls='boundary:vec', info='repr')
+                ctx.add(pt, 'ext_sub_cached', vm.tok(e2), vm.tok(c2), cls='boundary:vec', info='repr')
+                ctx.add(pt, 'ext_add_cached', vm.tok(e2), vm.tok(c2), cls='boundary:vec', info='repr')
+                ctx.add(pt, 'ext_double', vm.tok(e2), cls='boundary:vec', info='repr')
+                ctx.add(pt, 'cached_from_ext', vm.tok(e2), cls='boundary:vec', info='repr')
     ctx.block()
     return ctx
 
